@@ -237,6 +237,21 @@ fn gen(tier: &str, rng: &mut Sm) -> Gen {
             }
         }
     }
-    g.meta("generator", format!("TwoPointXo/UniformXo on [Vec;2], (Vec,Vec), [Bitstring;2], (Bitstring,Bitstring) with tagged / complementary parents of length 0..6, {n} draws each (support soundness on every draw, completeness of the support where demanded), different lengths both ways, random small-alphabet parents; complementary parents of 65..200 genes (two-point: one contiguous segment; uniform: every combination at positions a word apart, neighbouring and far apart); exchange primitives exhaustive over lengths 0..{maxlen} x indices 0..7 x all ranges"));
+    // indices and range ends at the top of usize (an index + 1 must not overflow)
+    {
+        let huge: [i128; 4] = [u64::MAX as i128, u64::MAX as i128 - 1, i64::MAX as i128, i64::MAX as i128 + 1];
+        for (la, lb) in [(0usize, 0usize), (2, 2), (3, 1), (1, 4)] {
+            let pa: Vec<i64> = (0..la).map(|i| (i % 2) as i64).collect();
+            let pb: Vec<i64> = (0..lb).map(|i| ((i + 1) % 2) as i64).collect();
+            for h in huge {
+                g.inputs.push(tl![A(6), tv(&pa), tv(&pb), a(h)]);
+                for other in [0i128, 1, 2, h, h - 1] {
+                    g.inputs.push(tl![A(7), tv(&pa), tv(&pb), a(other), a(h)]);
+                    g.inputs.push(tl![A(7), tv(&pa), tv(&pb), a(h), a(other)]);
+                }
+            }
+        }
+    }
+    g.meta("generator", format!("TwoPointXo/UniformXo on [Vec;2], (Vec,Vec), [Bitstring;2], (Bitstring,Bitstring) with tagged / complementary parents of length 0..6, {n} draws each (support soundness on every draw, completeness of the support where demanded), different lengths both ways, random small-alphabet parents; complementary parents of 65..200 genes (two-point: one contiguous segment; uniform: every combination at positions a word apart, neighbouring and far apart); exchange primitives exhaustive over lengths 0..{maxlen} x indices 0..7 x all ranges, and with indices / range ends at the top of usize"));
     g
 }
